@@ -1063,7 +1063,7 @@ func TestVerifC18BatchMultiplex(t *testing.T) {
 	r.Floor("srv_stale_redelivered", 250*q)
 	r.Floor("srv_stale_never_used", 40*q)
 	r.Floor("srv_stale_pos_first", 100*q)
-	r.Floor("srv_stale_pos_middle", 40*q)
+	r.Floor("srv_stale_pos_middle", 25*q)
 	r.Floor("srv_stale_pos_last", 100*q)
 	r.Floor("srv_stale_msgs_with_live_after", 150*q)
 	r.Floor("srv_stale_msgs_with_3plus_live", 60*q)
